@@ -1454,6 +1454,24 @@ fn run_replace_jobs(items: Vec<(usize, T, bool)>, subjects: Vec<Vec<u32>>, repls
         let mut out = vec![];
         for (id, t, all_subjects) in items {
             let mut subjects = subjects.clone();
+            if all_subjects {
+                // periodic subjects S S S R: what was learnt in one period (where the match is, which starts
+                // failed) is not true of the next one when a longer alternative reaches beyond the period
+                let short: Vec<Vec<u32>> = subjects.iter().filter(|w| !w.is_empty() && w.len() <= 2).cloned().collect();
+                let rests: Vec<Vec<u32>> = subjects.iter().filter(|w| w.len() <= 2).cloned().collect();
+                for s in &short {
+                    for r in &rests {
+                        let mut w = vec![];
+                        for _ in 0..3 {
+                            w.extend(s.iter());
+                        }
+                        w.extend(r.iter());
+                        if (w.len() + id) % 2 == 0 || thorough {
+                            subjects.push(w);
+                        }
+                    }
+                }
+            }
             if let Some(w) = literal_of(&t) {
                 if w.len() >= 3 {
                     // around the literal: itself, embedded, doubled, truncated, each proper prefix as a decoy
